@@ -166,13 +166,17 @@ class IsConstantNoArgs(Contract):
 
 
 class BvWidth(Contract):
-    """FNode.bv_width(): the width of the node's BV type.  requires: BV typed."""
+    """FNode.bv_width(): the width of the node's BV type; an error (failing assert
+    or attribute look-up) for a node of any other type.  Proved on the body in
+    contracts/c04_fnode.py."""
     qualname = "pysmt.fnode.FNode.bv_width"
 
     def apply(self, ex, a, kw):
         n = a[0]
-        ex.oblige("requires:bv_width:bv-typed", Ty.is_BVT(S.type_of(n)))
-        ex.assume(Ty.is_BVT(S.type_of(n)))
+        self.world.touch(ex, n)
+        if not ex.decide(Ty.is_BVT(S.type_of(n))):
+            # not BV-typed: one of the asserts / attribute look-ups of the body fails
+            raise PyRaise(ExcVal("AssertionError", ("bv_width of a non bit-vector",)))
         w = Ty.bvw(S.type_of(n))
         fam = ex.ghost.get("width_family")
         if fam:
